@@ -199,7 +199,7 @@ func Forwardable(m PubMsg) bool { return len(m.Payload) > 0 }
 // Fingerprint: group state dump + publisher state + per-consumer monitor phase.
 func (s *Sys) Fingerprint() string {
 	var sb strings.Builder
-	sb.WriteString(s.X.W.Dump())
+	sb.WriteString(strings.ReplaceAll(s.X.W.Dump(), fmt.Sprintf("w%d-", s.X.W.ID), "w-")) // (host names of relay targets carry the world's id)
 	fmt.Fprintf(&sb, " |pub=%v inc=%d", s.X.PubAlive, s.X.Inc)
 	if s.O.Guarded {
 		fmt.Fprintf(&sb, " g[%v %v %v]", s.publishedInInc("vsh", "vsh2"), s.publishedInInc("key"), s.publishedInInc("ash"))
